@@ -6,6 +6,7 @@ import Gts.Lemmas.Normalize
 import Gts.Lemmas.Delete
 import Gts.Lemmas.Table
 import Gts.Model.Seq
+import Gts.Lemmas.Record
 namespace Gts.C04
 open Gts Loc
 
@@ -137,6 +138,31 @@ theorem rotMap_neg (n L x : Int) (hL : 0 < L) (h0 : 0 ≤ x) (h1 : x < L) :
   have : n + -n = 0 * L := by omega
   rw [this, rotMap_mul 0 L x hL h0 h1]
 
+/-- **rotations compose additively on every feature's denotation**: rotating by `a` and then by
+`b` re-locates a location exactly as one rotation by `a + b` maps its residues (guards of both
+steps as in `rotate_den_partial`). -/
+theorem rotate_twice_den_partial (l : Loc) (a b L : Int) (hL : 0 < L) (ha : 0 ≤ a) (hb : 0 ≤ b)
+    (hw : wf l = true) (hnn : nonneg l = true)
+    (hok1 : normOk L (expand l 0 a) = true)
+    (h11 : expandAbs l 0 a = false) (h12 : normalizeAbs (expand l 0 a) L = false)
+    (hnn2 : nonneg (normalize (expand l 0 a) L) = true)
+    (hok2 : normOk L (expand (normalize (expand l 0 a) L) 0 b) = true)
+    (h21 : expandAbs (normalize (expand l 0 a) L) 0 b = false)
+    (h22 : normalizeAbs (expand (normalize (expand l 0 a) L) 0 b) L = false) :
+    den (normalize (expand (normalize (expand l 0 a) L) 0 b) L) ≼ mapPos (rotMap (a + b) L) (den l) := by
+  have s1 := rotate_den_partial l a L hL ha hw hnn hok1 h11 h12
+  have wf1 : wf (normalize (expand l 0 a) L) = true :=
+    (normalize_mod (expand l 0 a) L hL (expand_ins l 0 a hw ha).2 hok1).2
+  have s2 := rotate_den_partial (normalize (expand l 0 a) L) b L hL hb wf1 hnn2 hok2 h21 h22
+  have s3 := mapPos_refines (rotMap b L) s1
+  have e : mapPos (rotMap b L) (mapPos (rotMap a L) (den l)) = mapPos (rotMap (a + b) L) (den l) := by
+    simp only [mapPos, List.map_map]
+    apply List.map_congr_left
+    intro p _
+    simp only [Function.comp, rotMap_add]
+  rw [e] at s3
+  exact s2.trans s3
+
 /-- non-vacuity: a complement-strand join that crosses the new origin -/
 example : wf (compl (joined [ranged 1 3 true false, ranged 6 9 false true])) = true ∧
     nonneg (compl (joined [ranged 1 3 true false, ranged 6 9 false true])) = true ∧
@@ -144,5 +170,35 @@ example : wf (compl (joined [ranged 1 3 true false, ranged 6 9 false true])) = t
     expandAbs (compl (joined [ranged 1 3 true false, ranged 6 9 false true])) 0 3 = false ∧
     normalizeAbs (expand (compl (joined [ranged 1 3 true false, ranged 6 9 false true])) 0 3) 10 = false := by
   decide
+
+/-! ### record level -/
+
+/-- the re-mapping does not depend on which representative of `n` modulo `L` is used -/
+theorem rotMap_emod (n L : Int) : rotMap (n % L) L = rotMap n L := by
+  funext x; simp [rotMap, Int.add_emod_emod]
+
+/-- **Rotate, record level**: for every `n` (any sign and magnitude) every feature of a non-empty
+record is present in the rotated record with unchanged key and qualifiers and a location
+denoting the same residues at `(x + n) mod L`, in the same order and strand (domain of the
+Normalize law and K2 guards as in `rotate_den_partial`). -/
+theorem rotate_feature_partial (s : Gts.Seq) (n : Int) (hL : 0 < s.len) (f : Feature) (hf : f ∈ s.feats)
+    (hw : wf f.loc = true) (hnn : nonneg f.loc = true)
+    (hok : normOk s.len (expand f.loc 0 (rotN n s.len)) = true)
+    (h1 : expandAbs f.loc 0 (rotN n s.len) = false)
+    (h2 : normalizeAbs (expand f.loc 0 (rotN n s.len)) s.len = false) :
+    ∃ f' ∈ (s.rotate n).feats, f'.key = f.key ∧ f'.props = f.props ∧
+      den f'.loc ≼ mapPos (rotMap n s.len) (den f.loc) := by
+  refine ⟨{ f with loc := (f.loc.expand 0 (rotN n s.len)).normalize s.len },
+    mem_of_perm_map (rotate_table_perm s n) hf, rfl, rfl, ?_⟩
+  have hr : 0 ≤ rotN n s.len := by rw [rotN_eq_emod n s.len hL]; exact Int.emod_nonneg _ (by omega)
+  have h := rotate_den_partial f.loc (rotN n s.len) s.len hL hr hw hnn hok h1 h2
+  have e : mapPos (rotMap (rotN n s.len) s.len) (den f.loc) = mapPos (rotMap n s.len) (den f.loc) := by
+    rw [rotN_eq_emod n s.len hL, rotMap_emod]
+  rw [e] at h
+  exact h
+
+/-- nothing is lost or added -/
+theorem rotate_feature_count (s : Gts.Seq) (n : Int) : (s.rotate n).feats.length = s.feats.length := by
+  simpa using (rotate_table_perm s n).length_eq
 
 end Gts.C04
